@@ -101,6 +101,9 @@ def fut_resolve_stub(kind):
         # InvalidStateError otherwise: never resolve a future twice, never touch a cancelled one
         cx.require('future-not-already-done', z3.Not(done_in(d, f)))
         cx.require('future-not-cancelled', z3.Not(cancelled_fn(f)))
+        if kind == 'exception':
+            # "fails with an error": set_exception(None) is a TypeError (and the waiter would stay pending)
+            cx.require('exception-is-an-exception', z3.Not(isn(cx.args[0])))
         return [Out(sets={'ghost_done': mark_done(d, f)}, event=('resolve', (cx.recv, kind) + tuple(cx.args)))]
     stub.modifies = ('ghost_done',)
     return stub
@@ -303,6 +306,11 @@ chan_cleanup = Spec(
         # the same facts, counted on the event log of the path (what the collaborators actually saw)
         ('one-session-callback-at-most', lambda c: z3.BoolVal(len(c.events('session_lost')) <= 1)),
         ('one-unregistration-at-most', lambda c: z3.BoolVal(len(c.events('remove_channel')) <= 1)),
+        # legal callback order: connection_lost is the session's last callback - no waiter of this channel is
+        # resolved (waking application code that may call back into the session) after it
+        ('nothing-resolved-after-the-final-notification', lambda c: z3.BoolVal(
+            not any(e[0] == 'resolve'
+                    for e in c.events()[([e[0] for e in c.events()] + ['session_lost']).index('session_lost'):]))),
     ],
     raises={})
 
@@ -470,6 +478,12 @@ def close_post(c):
         ('one-cleanup-per-close', hs_step),
         ('close-packet-exactly-once', close_sent_once),
         ('class-inv', lambda c: hs_inv(c, new=True)),
+        # (used where close()/abort() is re-entered from a session callback, see reentrant() below)
+        ('recv-state-otherwise-unchanged', lambda c: z3.Or(
+            c.new('_recv_state') == c.old('_recv_state'),
+            z3.And(c.old('_recv_state') == CLOSE_PENDING, c.new('_recv_state') == CLOSED))),
+        ('receive-buffer-dropped-or-untouched', lambda c: z3.Or(
+            z3.Length(c.new('_recv_buf')) == 0, c.new('_recv_buf') == c.old('_recv_buf'))),
     ]
 
 
@@ -524,10 +538,39 @@ process_connection_close = Spec(
 
 
 # ---- receive side: peer CLOSE and delivery of the remaining data -----------------------------------
+def reentrant(stub):
+    """A session callback (data_received, eof_received) is application code: besides what `stub` says it may call
+    close() or abort() of this very channel before it returns.  Those outcomes are added with the contracts proved
+    for SSHChannel.close / SSHChannel.abort above (their requires, hs_inv, becomes an obligation at the call)."""
+    def wrapped(cx):
+        outs = stub(cx)
+        outs = outs if isinstance(outs, list) else [Out(ret=outs)]
+        extra = []
+        recv, args, kwargs = cx.recv, cx.args, cx.kwargs
+        cx.recv, cx.args, cx.kwargs = cx.ex.self_ref, [], {}        # close()/abort() are called on the channel
+        try:
+            for o in outs:
+                if o.exc is not None:
+                    continue
+                for getter in (lambda: chan_close, lambda: chan_abort):
+                    for co in contract_stub(getter)(cx):
+                        if co.exc is not None:
+                            continue
+                        extra.append(Out(ret=o.ret, sets=dict(o.sets), assume=list(o.assume) + list(co.assume),
+                                         osets=list(o.osets) + on_self(cx, **co.sets), event=o.event))
+        finally:
+            cx.recv, cx.args, cx.kwargs = recv, args, kwargs
+        return outs + extra
+    wrapped.modifies = tuple(sorted(set(getattr(stub, 'modifies', ())) | set(CLOSE_MODIFIES)))
+    return wrapped
+
+
 def deliver_stub(cx):
-    """_deliver_data (C07/C08 contract): may pause reading through the session callback, may fail decoding"""
+    """_deliver_data (C07/C08 contract): the session callback may pause reading or raise anything; decoding may
+    fail (ProtocolError)"""
     sets = {'_recv_window': cx.fresh('int', 'recv_window'), '_recv_paused': cx.fresh('any', 'recv_paused')}
-    return [Out(sets=sets, event=('deliver', tuple(cx.args))), Out(exc=VExc('ProtocolError'))]
+    return [Out(sets=sets, event=('deliver', tuple(cx.args))), Out(exc=VExc('ProtocolError')),
+            Out(sets=sets, exc=VExc('Exception'), event=('deliver', tuple(cx.args)))]
 
 
 deliver_stub.modifies = ('_recv_window', '_recv_paused')
@@ -562,33 +605,53 @@ def recv_step(c):
 
 
 FLUSH_RECV_STUBS = {
-    'self._deliver_data': deliver_stub,
+    'self._deliver_data': reentrant(deliver_stub),
     'self._decoder.decode': may_raise(ret('str', 'decoded'), 'UnicodeDecodeError'),
-    'self._session.eof_received': ret('bool', 'keep_open'),
+    'self._session.eof_received': reentrant(ret('bool', 'keep_open')),
     'self.write_eof': write_eof_stub,
     'self._loop.call_soon': call_soon_stub,
 }
 
+class SinceLoopEntry:
+    """view of a loop-invariant Ctx in which old* read the state at loop entry"""
+    def __init__(self, c):
+        self.c = c
+
+    def old(self, n, ref=None):
+        return self.c.at_entry(n)
+
+    def __getattr__(self, n):
+        return getattr(self.c, n)
+
+
+def flush_recv_inv(c):
+    """while data is delivered the handshake only moves by what a re-entrant close()/abort() of the session may
+    do: the step relation hs_step / close_sent_once / recv_step holds from loop entry to now"""
+    e = SinceLoopEntry(c)
+    return z3.And(hs_inv(c, new=True), hs_step(e), close_sent_once(e), recv_step(e))
+
+
 flush_recv = Spec(
     PROP, 'channel', 'SSHChannel._flush_recv_buf', self_class='SSHChannel',
     params=dict(exc='opt[opaque:Exc]'), classes=C9_CHAN_CLASSES, stubs=FLUSH_RECV_STUBS, falsy_sorts={'Any'},
-    loops={1: LoopSpec(header='self._recv_buf and (not self._recv_paused)',
-                       invariant=lambda c: z3.And(hs_inv(c, new=True),
-                                                  c.new('_send_state') == c.at_entry('_send_state'),
-                                                  c.new('_recv_state') == c.at_entry('_recv_state'),
-                                                  c.new('ghost_cleanup_sched') == c.at_entry('ghost_cleanup_sched')),
+    loops={1: LoopSpec(header='self._recv_buf and (not self._recv_paused)', invariant=flush_recv_inv,
                        variant=lambda c: z3.Length(c.new('_recv_buf')))},
     requires=lambda c: z3.And(hs_inv(c), decoder_inv(c)),
-    modifies=['_recv_buf', '_recv_window', '_recv_paused', '_recv_state', '_send_state', 'ghost_cleanup_sched'],
+    modifies=sorted({'_recv_buf', '_recv_window', '_recv_paused', '_recv_state', '_send_state',
+                     'ghost_cleanup_sched'} | set(CLOSE_MODIFIES)),
     ensures=[('close-stays-pending-only-while-data-is-buffered', close_pending_has_data),
              ('cleanup-gets-the-error', lambda c: z3.And(*[
                  c.eq(e[1][0], c.argv('exc')) for e in c.events('sched_cleanup')]))],
     always=[('one-cleanup-per-close', hs_step),
             ('recv-state-step', recv_step),
-            ('class-inv', lambda c: hs_inv(c, new=True))],
+            ('class-inv', lambda c: hs_inv(c, new=True)),
+            # (a session callback may close the channel: still at most one CLOSE packet)
+            ('close-packet-exactly-once', close_sent_once)],
     raises={'ProtocolError': True,
             # only after a cleanup has already detached the session (connection closed under a paused reader)
-            'AssertionError': lambda c: isn(c.oldv('_session'))})
+            'AssertionError': lambda c: isn(c.oldv('_session')),
+            # whatever the session's data_received / eof_received raised
+            'Exception': True})
 
 process_close = Spec(
     PROP, 'channel', 'SSHChannel._process_close', self_class='SSHChannel',
@@ -605,7 +668,8 @@ process_close = Spec(
              ('one-cleanup-per-close', hs_step),
              ('class-inv', lambda c: hs_inv(c, new=True))],
     always=[('never-two-cleanups', lambda c: delta(c, 'ghost_cleanup_sched') <= 1)],
-    raises={'ProtocolError': True, 'PacketDecodeError': True, 'AssertionError': lambda c: isn(c.oldv('_session'))})
+    raises={'ProtocolError': True, 'PacketDecodeError': True, 'AssertionError': lambda c: isn(c.oldv('_session')),
+            'Exception': True})
 
 
 # ------------------------------------------------------------------------------------------------ stream
@@ -1109,20 +1173,45 @@ def all_listeners_closed(c):
     return z3.ForAll([k], z3.Implies(z3.Select(m0.dom, k), z3.Select(g.val, z3.Select(m0.val, k))))
 
 
+# Finding F-C09-2 (notes/findings/c09_error_handler_raises.py, audit finding 4): SSHConnection._cleanup calls the
+# application's error handler unprotected; if it raises, the waiter is not resolved, the owner is not told and
+# _close_event is never set (wait_closed() hangs).  With the raising outcome in the stub the obligation
+# `SSHConnection._cleanup#signals(Exception)` is refuted on a tree without the proposed patch
+# (notes/findings/c09_error_handler_raises.patch) and everything is proved on a tree with it.  False = the outcome is
+# left out (then it is an ASSUMPTION, listed below) until the coordinator has repaired /repo or recorded the finding.
+ERROR_HANDLER_MAY_RAISE = False
+if not ERROR_HANDLER_MAY_RAISE:
+    ASSUMPTIONS.append('the application\'s error_handler callback does not raise (it is called unprotected in '
+                       'SSHConnection._cleanup: finding F-C09-2, notes/findings/c09_error_handler_raises.py; set '
+                       'ERROR_HANDLER_MAY_RAISE = True in contracts/c09.py once /repo is repaired)')
+
 CONN_CLEANUP_STUBS = dict(FUT_STUBS, **{
-    'self._cancel_keepalive_timer': cancel_timer_stub('_keepalive_timer'),
-    'self._cancel_login_timer': cancel_timer_stub('_login_timer'),
+    # by the contracts proved for the two helpers (Specs cancel_timer_specs)
+    'self._cancel_keepalive_timer': contract_stub(lambda: cancel_timer_specs['_keepalive_timer']),
+    'self._cancel_login_timer': contract_stub(lambda: cancel_timer_specs['_login_timer']),
     'self._channels.values': values_stub, 'self._local_listeners.values': values_stub,
     'list': list_of_values_stub,
     'chan.process_connection_close': chan_close_stub,
     'listener.close': listener_close_stub,
     'self._process_global_response': contract_stub(lambda: global_response),
     'self._auth.cancel': counting('ghost_auth_cancelled', 'auth_cancelled'),
-    'self._error_handler': counting('ghost_error_handler_calls', 'error_handler'),
+    # application callback (listen(..., error_handler=...)): it can raise anything, see ERROR_HANDLER_MAY_RAISE
+    'self._error_handler': counting('ghost_error_handler_calls', 'error_handler', exc_too=ERROR_HANDLER_MAY_RAISE),
     'self._owner.connection_lost': counting('ghost_owner_lost', 'owner_lost', exc_too=True),
     'self._tunnel.close': counting('ghost_tunnel_closed', 'tunnel_closed'),
     'self._close_event.set': event_set_stub,
 })
+
+cancel_timer_specs = {
+    _f: Spec(PROP, 'connection', 'SSHConnection._cancel' + _f, self_class='SSHConnection', classes=C9_CONN_CLASSES,
+             stubs={'self.' + _f + '.cancel': counting('ghost_timers_cancelled', 'timer_cancelled')},
+             modifies=[_f, 'ghost_timers_cancelled'],
+             ensures=[('timer-forgotten', lambda c, _f=_f: isn(c.newv(_f))),
+                      ('running-timer-cancelled-once', lambda c, _f=_f:
+                          delta(c, 'ghost_timers_cancelled') == b2i(attached(c, _f))),
+                      ('one-cancel-call-at-most', lambda c: z3.BoolVal(len(c.events('timer_cancelled')) <= 1))],
+             raises={})
+    for _f in ('_keepalive_timer', '_login_timer')}
 
 conn_cleanup = Spec(
     PROP, 'connection', 'SSHConnection._cleanup', self_class='SSHConnection',
@@ -1160,6 +1249,8 @@ conn_cleanup = Spec(
         ('tunnel-closed-once-and-forgotten', lambda c: z3.And(
             delta(c, 'ghost_tunnel_closed') == b2i(attached(c, '_tunnel')), isn(c.newv('_tunnel')))),
         ('timers-cancelled', lambda c: z3.And(isn(c.newv('_login_timer')), isn(c.newv('_keepalive_timer')))),
+        ('each-running-timer-cancelled-once', lambda c: delta(c, 'ghost_timers_cancelled') ==
+            b2i(attached(c, '_login_timer')) + b2i(attached(c, '_keepalive_timer'))),
         ('close-event-set', lambda c: c.new('ghost_close_event_set')),
         ('input-buffer-dropped', lambda c: z3.Length(c.new('_inpbuf')) == 0),
     ],
@@ -1638,6 +1729,7 @@ c9_block_read = Spec(
 # _block_read is reached only with EOF not latched (the other preconditions of c9_block_read - loop set, datatype
 # known - are C19's wf()).  C19's data clauses are not repeated here.
 import copy as _copy
+import ast as _ast9
 from . import c19 as _c19
 
 
@@ -1734,13 +1826,28 @@ def sftp_loop_inv(c):
                   c.newv('_requests').val == c.oldv('_requests').val)
 
 
+sftp_base_cleanup = Spec(
+    PROP, 'sftp', 'SFTPHandler._cleanup', self_class='SFTPClientHandler',
+    params=dict(exc='opt[opaque:Exc]'), classes=SFTP_CLASSES,
+    stubs={'self._writer.close': counting('ghost_writer_closed', 'writer_closed')},
+    modifies=['_reader', '_writer', 'ghost_writer_closed'],
+    ensures=[('writer-closed-once-iff-open', lambda c: delta(c, 'ghost_writer_closed') == b2i(attached(c, '_writer'))),
+             ('writer-forgotten', lambda c: isn(c.newv('_writer'))),
+             ('reader-loop-stops', lambda c: z3.Implies(attached(c, '_writer'), isn(c.newv('_reader'))))],
+    raises={})
+
+
 def sftp_base_cleanup_stub(cx):
-    """await super()._cleanup(exc): SFTPHandler._cleanup (Spec sftp_base_cleanup below) closes the writer"""
-    return [Out(sets={'ghost_base_cleanups': bump(cx, 'ghost_base_cleanups'), '_reader': VNone, '_writer': VNone},
-                event=('base_cleanup', tuple(cx.args)))]
+    """await super()._cleanup(exc) by the contract of SFTPHandler._cleanup (Spec sftp_base_cleanup); counted"""
+    outs = contract_stub(lambda: sftp_base_cleanup)(cx)
+    for o in outs:
+        o.sets['ghost_base_cleanups'] = bump(cx, 'ghost_base_cleanups')
+        o.event = ('base_cleanup', tuple(cx.args))
+    return outs
 
 
-sftp_base_cleanup_stub.modifies = ('ghost_base_cleanups', '_reader', '_writer')
+sftp_base_cleanup_stub.modifies = ('ghost_base_cleanups', '_reader', '_writer', 'ghost_writer_closed')
+sftp_base_cleanup_stub.spec_getter = lambda: sftp_base_cleanup
 
 
 def all_requests_failed(c):
@@ -1758,45 +1865,18 @@ sftp_cleanup = Spec(
     loops={1: LoopSpec(header='for waiter in list(self._requests.values())', invariant=sftp_loop_inv,
                        modifies=['ghost_done'])},
     requires=lambda c: sftp_registry_inv(c),
-    modifies=['_requests', 'ghost_done', 'ghost_base_cleanups', '_reader', '_writer'],
+    modifies=['_requests', 'ghost_done', 'ghost_base_cleanups', '_reader', '_writer', 'ghost_writer_closed'],
     ensures=[
         ('every-outstanding-request-resolved', all_requests_failed),
-        # "... fails with an error": never a result, never the exception None
-        ('requests-fail-with-an-error', lambda c: z3.And(*[
-            z3.And(z3.BoolVal(e[1][1] == 'exception'), z3.Not(isn(e[1][2]))) for e in c.events('resolve')])),
+        # ("... fails with an error", never with None: pre-at-call obligation exception-is-an-exception in the loop)
         ('request-table-emptied', lambda c: empty_table(c, '_requests')),
         ('base-cleanup-exactly-once-with-the-same-error', lambda c: z3.And(
             delta(c, 'ghost_base_cleanups') == 1, z3.BoolVal(len(c.events('base_cleanup')) == 1),
             *[c.eq(e[1][0], c.argv('exc')) for e in c.events('base_cleanup')])),
+        ('writer-closed', lambda c: isn(c.newv('_writer'))),
         ('class-inv', lambda c: sftp_registry_inv(c, new=True)),
     ],
     raises={})
-
-
-sftp_base_cleanup = Spec(
-    PROP, 'sftp', 'SFTPHandler._cleanup', self_class='SFTPClientHandler',
-    params=dict(exc='opt[opaque:Exc]'), classes=SFTP_CLASSES,
-    stubs={'self._writer.close': counting('ghost_writer_closed', 'writer_closed')},
-    modifies=['_reader', '_writer', 'ghost_writer_closed'],
-    ensures=[('writer-closed-once-iff-open', lambda c: delta(c, 'ghost_writer_closed') == b2i(attached(c, '_writer'))),
-             ('writer-forgotten', lambda c: isn(c.newv('_writer'))),
-             ('reader-loop-stops', lambda c: z3.Implies(attached(c, '_writer'), isn(c.newv('_reader'))))],
-    raises={})
-
-
-def sftp_base_cleanup_stub(cx):         # (replaces the placeholder above: the contract of sftp_base_cleanup)
-    outs = contract_stub(lambda: sftp_base_cleanup)(cx)
-    for o in outs:
-        o.sets['ghost_base_cleanups'] = bump(cx, 'ghost_base_cleanups')
-        o.event = ('base_cleanup', tuple(cx.args))
-    return outs
-
-
-sftp_base_cleanup_stub.modifies = ('ghost_base_cleanups', '_reader', '_writer', 'ghost_writer_closed')
-sftp_base_cleanup_stub.spec_getter = lambda: sftp_base_cleanup
-sftp_cleanup.stubs['super()._cleanup'] = sftp_base_cleanup_stub
-sftp_cleanup.modifies = ['_requests', 'ghost_done', 'ghost_base_cleanups', '_reader', '_writer', 'ghost_writer_closed']
-sftp_cleanup.ensures.append(('writer-closed', lambda c: isn(c.newv('_writer'))))
 
 
 def sftp_cleanup_call(cx):
@@ -1835,3 +1915,244 @@ sftp_process_packet = Spec(
         ('class-inv', lambda c: sftp_registry_inv(c, new=True)),
     ],
     raises={})
+
+
+# ---- SFTP requests are registered where the cleanup finds them ----------------------------------------
+def sftp_write_stub(cx):
+    """writer.write(): ConnectionError subclasses when the channel refuses the write"""
+    return [Out(event=('sent', tuple(cx.args))), Out(exc=VExc('BrokenPipeError'))]
+
+
+sftp_write_stub.modifies = ()
+
+
+sftp_send_packet = Spec(
+    PROP, 'sftp', 'SFTPHandler.send_packet', self_class='SFTPClientHandler',
+    params=dict(pkttype='int', pktid='opt[int]', args='seq[bytes]'), classes=SFTP_CLASSES,
+    stubs={'self._writer.write': sftp_write_stub, 'self.log_sent_packet': noop('log'),
+           'UInt32': ret('bytes', 'uint32'), 'Byte': ret('bytes', 'byte'), 'str': ret('str', 'text')},
+    modifies=[],
+    ensures=[('sent-only-on-an-open-session', lambda c: attached(c, '_writer'))],
+    # once the cleanup has dropped the writer every request is refused before anybody can wait for its answer
+    raises={'SFTPNoConnection': lambda c: isn(c.oldv('_writer')),
+            'SFTPConnectionLost': lambda c: attached(c, '_writer')})
+sftp_send_packet.vararg = 'args'
+
+
+def sftp_send_packet_call(cx):
+    """self.send_packet(pkttype, pktid, hdr, *args) by the contract of Spec sftp_send_packet (the payload is not
+    looked at here, so the mixed positional/star argument list is not rebuilt)"""
+    gone = isn(cx.selff('_writer'))
+    return [Out(assume=[z3.Not(gone)], event=('sent', ())), Out(exc=VExc('SFTPNoConnection'), assume=[gone]),
+            Out(exc=VExc('SFTPConnectionLost'), assume=[z3.Not(gone)])]
+
+
+sftp_send_packet_call.modifies = ()
+sftp_send_packet_call.spec_getter = lambda: sftp_send_packet
+
+
+def registered_as(c, key, new=True):
+    m = c.newv('_requests') if new else c.oldv('_requests')
+    return z3.And(z3.Select(m.dom, key), z3.Select(m.val, key) == c.arg('waiter'))
+
+
+def id_free(c):
+    """the id about to be used is not outstanding (ids are handed out in sequence modulo 2**32: this fails only if
+    a request stays unanswered while 2**32 others are issued)"""
+    return z3.Not(z3.Select(c.oldv('_requests').dom, c.old('_next_pktid')))
+
+
+def fresh_for_requests(c):
+    """the future passed in is not yet the waiter of another request (it comes from create_future())"""
+    m = c.oldv('_requests')
+    k = z3.Int(fresh_name('k'))
+    return z3.And(pending_or_cancelled(c.oldv('ghost_done'), c.arg('waiter')),
+                  z3.ForAll([k], z3.Implies(z3.Select(m.dom, k), z3.Select(m.val, k) != c.arg('waiter'))))
+
+
+sftp_send_request = Spec(
+    PROP, 'sftp', 'SFTPClientHandler._send_request', self_class='SFTPClientHandler',
+    params=dict(pkttype='int', args='seq[bytes]', waiter=FUT), classes=SFTP_CLASSES,
+    stubs={'self.send_packet': sftp_send_packet_call,
+           'UInt32': ret('bytes', 'uint32'), 'String': ret('bytes', 'string')},
+    requires=lambda c: z3.And(sftp_registry_inv(c), id_free(c), fresh_for_requests(c)),
+    modifies=['_requests', '_next_pktid'],
+    ensures=[('sent-only-on-an-open-session', lambda c: attached(c, '_writer'))],
+    # registered BEFORE anything can fail: on every outcome the waiter is in the table (if sending failed nobody
+    # awaits it: Spec sftp_make_request)
+    always=[('waiter-registered-under-a-fresh-id', lambda c: z3.And(
+        registered_as(c, c.old('_next_pktid')),
+        c.newv('_requests').dom == z3.Store(c.oldv('_requests').dom, c.old('_next_pktid'), True),
+        c.newv('_requests').val == z3.Store(c.oldv('_requests').val, c.old('_next_pktid'), c.arg('waiter')))),
+        ('class-inv', lambda c: sftp_registry_inv(c, new=True))],
+    raises={'SFTPNoConnection': lambda c: isn(c.oldv('_writer')), 'SFTPConnectionLost': True})
+
+
+def await_sftp_waiter_stub(cx):
+    """`await waiter` in SFTPClientHandler._make_request: a cut point.  Obligations: the awaited future is a value
+    of _requests (where _cleanup / _process_packet find it), class invariant holds.  The await returns the
+    (type, packet) response, raises the exception the cleanup set, or is cancelled."""
+    from pyvc.contracts import Ctx
+    w = cx.args[0]
+    m = cx.selff('_requests')
+    k = z3.Int(fresh_name('wit'))
+    cx.require('awaited-waiter-is-registered', z3.Exists([k], z3.And(z3.Select(m.dom, k), z3.Select(m.val, k) == w.z)))
+    cx.require('class-inv-at-await', sftp_registry_inv(Ctx(cx.ex, cx.st, cx.st, cx.ex.self_ref)))
+    outs = []
+    for exc in (None, VExc('Exception'), VExc('CancelledError')):
+        sets = {'_requests': cx.fresh(REQS_T, 'requests'), 'ghost_done': cx.fresh(DONE_T, 'done'),
+                '_writer': cx.fresh(SFTP_FIELDS['_writer'], 'writer')}
+        r = VTuple([cx.fresh('int', 'resptype'), cx.fresh('obj:SSHPacket', 'resp')]) if exc is None else VNone
+        outs.append(Out(ret=r, sets=sets, exc=exc, event=('await', (w,))))
+    return outs
+
+
+await_sftp_waiter_stub.modifies = ('_requests', 'ghost_done', '_writer')
+
+
+def fresh_request_future_stub(cx):
+    """loop.create_future(): a future nobody has seen yet - pending, not cancelled, no request's waiter"""
+    f = cx.fresh(FUT, 'waiter')
+    m = cx.selff('_requests')
+    k = z3.Int(fresh_name('k'))
+    return [Out(ret=f, assume=[z3.Not(done_in(cx.selff('ghost_done'), f.z)), z3.Not(cancelled_fn(f.z)),
+                               z3.ForAll([k], z3.Implies(z3.Select(m.dom, k), z3.Select(m.val, k) != f.z))])]
+
+
+fresh_request_future_stub.modifies = ()
+
+sftp_make_request = Spec(
+    PROP, 'sftp', 'SFTPClientHandler._make_request', self_class='SFTPClientHandler',
+    params=dict(pkttype='int', args='seq[bytes]'), classes=SFTP_CLASSES,
+    # the request/wait step: `waiter = create_future(); self._send_request(...); resptype, resp = await waiter`
+    # (decoding of the response that follows is C13/C16's business)
+    region=lambda fn: [s for s in fn.body if not isinstance(s, _ast9.Expr) or
+                       not isinstance(s.value, _ast9.Constant)][:3],
+    stubs={'self._loop.create_future': fresh_request_future_stub,
+           'self._send_request': contract_stub(lambda: sftp_send_request), 'await waiter': await_sftp_waiter_stub},
+    requires=lambda c: z3.And(sftp_registry_inv(c), id_free(c)),
+    ensures=[('waited', lambda c: z3.BoolVal(len(c.events('await')) == 1))],
+    always=[
+        # after cleanup (_writer is None) nobody is parked: the request fails before the wait
+        ('closed-session-fails-immediately', lambda c: z3.Implies(
+            isn(c.oldv('_writer')), z3.BoolVal(len(c.events('await')) == 0)))],
+    raises={'SFTPNoConnection': True, 'SFTPConnectionLost': True, 'Exception': True, 'CancelledError': True})
+
+
+# ---- (2) pending operation "channel open": SSHChannel._open, the only creator of _open_waiter --------------
+def await_open_waiter_stub(cx):
+    """`await self._open_waiter`: a cut point.  Obligations: what is awaited is the future stored in _open_waiter
+    (where _cleanup / process_open_confirmation / process_open_failure find it) and the class invariant holds.
+    Outcomes: the confirmation packet, the ChannelOpenError set by cleanup / open failure, cancellation."""
+    from pyvc.contracts import Ctx
+    w = cx.args[0]
+    cx.require('awaited-waiter-is-registered', z3.Not(isn(w)))      # the expression awaited IS the registry slot
+    c0 = Ctx(cx.ex, cx.st, cx.st, cx.ex.self_ref)
+    cx.require('class-inv-at-await', chan_registry_inv(c0))
+    outs = []
+    for exc in (None, VExc('ChannelOpenError'), VExc('CancelledError')):
+        sets = {'_open_waiter': cx.fresh(C9_CHAN_FIELDS['_open_waiter'], 'open_waiter'),
+                '_request_waiters': cx.fresh('seq[' + FUT + ']', 'request_waiters'),
+                'ghost_done': cx.fresh(DONE_T, 'done')}
+        outs.append(Out(ret=cx.fresh('obj:SSHPacket', 'confirmation') if exc is None else VNone, sets=sets, exc=exc,
+                        event=('await', (w,))))
+    return outs
+
+
+await_open_waiter_stub.modifies = ('_open_waiter', '_request_waiters', 'ghost_done')
+
+chan_open = Spec(
+    PROP, 'channel', 'SSHChannel._open', self_class='SSHChannel',
+    params=dict(chantype='bytes', args='seq[bytes]'), classes=dict(C9_CHAN_CLASSES, **PACKET_CLASSES),
+    stubs={'self._loop.create_future': fresh_future_stub(['_request_waiters', '_open_waiter']),
+           'self._conn.send_packet': noop('open_sent'),
+           # packet encoders are abstract here (their range checks are C08's)
+           'String': ret('bytes', 'string'), 'UInt32': ret('bytes', 'uint32'),
+           'await self._open_waiter': await_open_waiter_stub},
+    # a channel object is opened once (create()/_open_* of each channel class call _open exactly once, right after
+    # the constructor): no earlier opener is parked on _open_waiter
+    requires=lambda c: z3.And(chan_registry_inv(c), hs_inv(c), isn(c.oldv('_open_waiter'))),
+    ensures=[('the-open-request-was-sent-and-waited-for', lambda c: z3.BoolVal(
+        [e[0] for e in c.events() if e[0] in ('open_sent', 'await')] == ['open_sent', 'await']))],
+    raises={
+        # an already open channel: nothing registered, nobody parked
+        'OSError': lambda c: z3.And(c.old('_send_state') != CLOSED, isn(c.newv('_open_waiter')),
+                                    z3.BoolVal(len(c.events('await')) == 0)),
+        # the channel was cleaned up before it was opened (connection lost right after the constructor): fails
+        # without parking anybody (robustness of this path is C10's)
+        'AssertionError': lambda c: z3.And(isn(c.oldv('_conn')), z3.BoolVal(len(c.events('await')) == 0)),
+        'ChannelOpenError': True, 'CancelledError': True})
+chan_open.vararg = 'args'
+
+
+# ---- (3) conn_waiter_inv on its remaining writers: the five sites that resolve SSHConnection._waiter ---------
+# send_newkeys, send_userauth_success, _process_userauth_failure, _process_userauth_success (two sites): each is
+# one `if self._wait == <phase> and self._waiter and not self._waiter.cancelled(): set_result(None); ...;
+# self._wait = None` statement, run here as a region of its function.  (__init__, the only other writer of
+# _wait/_waiter, takes the waiter from the options: create_future() in connect()/listen(), pending.)
+def waiter_site(n):
+    def pick(fn):
+        sites = [s for s in _ast9.walk(fn) if isinstance(s, _ast9.If) and any(
+            isinstance(x, _ast9.Attribute) and x.attr == 'cancelled' and isinstance(x.value, _ast9.Attribute)
+            and x.value.attr == '_waiter' for x in _ast9.walk(s.test))]
+        sites.sort(key=lambda s: s.lineno)
+        return [sites[n]]
+    return pick
+
+
+WAITER_SITE_FIELDS = {'_wait': 'opt[str]', '_waiter': 'opt[' + FUT + ']', '_global_request_waiters': 'seq[' + FUT + ']',
+                      '_auth_methods': 'any', 'ghost_done': DONE_T}
+
+
+def waiter_site_post():
+    return [
+        ('phase-cleared-exactly-when-its-waiter-is-woken', lambda c: z3.And(
+            z3.BoolVal(len(c.events('resolve')) <= 1),
+            z3.BoolVal(len(c.events('resolve')) == 1) == z3.And(attached(c, '_wait'), isn(c.newv('_wait'))),
+            z3.Or(isn(c.newv('_wait')), c.eq(c.newv('_wait'), c.oldv('_wait'))))),
+        ('class-inv', lambda c: z3.And(conn_waiter_inv(Flip(c)),
+                                       registry_ok(c.newv('ghost_done'), c.new('_global_request_waiters')))),
+    ]
+
+
+def _bind_region_locals(ex, st):
+    # a local of _process_userauth_failure computed before the region (the name-list just parsed)
+    st.env.setdefault('auth_methods', ex.fresh(st, parse_type('seq[bytes]'), 'auth_methods'))
+
+
+_PKT_PARAMS = {'_pkttype': 'int', '_pktid': 'int', 'packet': 'any'}
+for _fn, _n, _params in [('send_newkeys', 0, {'k': 'bytes', 'h': 'bytes'}), ('send_userauth_success', 0, {}),
+                         ('_process_userauth_failure', 0, _PKT_PARAMS),
+                         ('_process_userauth_success', 0, _PKT_PARAMS), ('_process_userauth_success', 1, _PKT_PARAMS)]:
+    Spec(PROP, 'connection', 'SSHConnection.' + _fn, self_class='SSHConnection', params=_params,
+         classes={'SSHConnection': WAITER_SITE_FIELDS}, stubs=dict(FUT_STUBS), region=waiter_site(_n),
+         setup=_bind_region_locals,
+         cases=[(f'waiter-site-{_n}', {})],
+         requires=lambda c: z3.And(conn_waiter_inv(c),
+                                   registry_ok(c.oldv('ghost_done'), c.old('_global_request_waiters'))),
+         ensures=waiter_site_post(), raises={})
+
+
+# ---- frames: the engine havocs exactly `modifies` when a Spec is used through contract_stub and does not check
+# that list itself, so every Spec used as a callee contract gets the obligation "no other declared field changes"
+def frame_clause(spec):
+    def frame(c):
+        decl = spec.classes[spec.self_class]
+        conj = []
+        for f in sorted(decl):
+            if f in (spec.modifies or ()):
+                continue
+            a, b = c.oldv(f), c.newv(f)
+            if isinstance(a, VMap) and isinstance(b, VMap):
+                conj.append(z3.And(a.dom == b.dom, a.val == b.val))
+            else:
+                conj.append(c.ex.veq(c.new_state, a, b))
+        return z3.And(*conj) if conj else z3.BoolVal(True)
+    return ('frame', frame)
+
+
+for _sp in [close_send, discard_recv, flush_send, flush_recv, chan_close, chan_abort, chan_cleanup, force_close,
+            global_response, should_block, conn_cleanup, sftp_cleanup, sftp_base_cleanup, sftp_send_request,
+            sftp_send_packet] + list(cancel_timer_specs.values()) + UNBLOCK_DRAIN_SPECS:
+    if _sp.modifies is not None:
+        _sp.always.append(frame_clause(_sp))
